@@ -81,6 +81,7 @@ type Report struct {
 	Notes      []string
 	Unproved   []string // not claimed (baseline-unproved sweep obligations)
 	Partial    []string // sweep units whose exploration hit the tier's path budget
+	NowProved  []string // baseline-unproved obligations that discharged in this (thorough) run
 	Broken     []string
 	Extra      map[string]interface{}
 	SolverSecs float64
@@ -470,8 +471,16 @@ func runUnit(P *Program, rep *Report, c *Contract, fn *ssa.Function, id string, 
 	// claimed and therefore not even attempted (they are listed in the evidence)
 	unproved := loadUnproved(id)
 	keep := map[string]bool{}
+	retry := map[string]bool{}
 	for _, o := range mine {
 		if unproved[o.Name] && os.Getenv("GOVC_BASELINE") == "" {
+			if !quickTier {
+				// thorough tier: the undecided obligations are attempted again (longer time-outs); one
+				// that discharges now is reported as such, one that does not stays "unproved, not claimed"
+				retry[o.Name] = true
+				keep[o.Name] = true
+				continue
+			}
 			rep.mu.Lock()
 			rep.Unproved = append(rep.Unproved, o.Name)
 			rep.mu.Unlock()
@@ -493,6 +502,16 @@ func runUnit(P *Program, rep *Report, c *Contract, fn *ssa.Function, id string, 
 	e.discharge(cfg)
 	for _, n := range e.oblOrder {
 		o := e.obls[n]
+		if retry[o.Name] {
+			rep.mu.Lock()
+			if o.Status == "unsat" {
+				rep.NowProved = append(rep.NowProved, o.Name)
+			} else {
+				rep.Unproved = append(rep.Unproved, o.Name)
+			}
+			rep.mu.Unlock()
+			continue
+		}
 		r := &OblResult{Name: o.Name, Kind: o.Kind, Fn: shortFn(fn), Text: o.Text, Status: o.Status, Backend: o.Backend, Secs: o.Secs, Props: o.Props, Eng: e, Obl: o, Raw: o.Model}
 		for _, cs := range o.Cases {
 			if cs.Goal != "true" {
@@ -811,6 +830,7 @@ func writeEvidence(rep *Report, obligations, discharged int, backends map[string
 		"known_findings_still_present": kf,
 		"unproved_not_claimed":         rep.Unproved,
 		"partially_explored_sweep_units": rep.Partial,
+		"baseline_unproved_discharged_in_this_run": rep.NowProved,
 		"cover_queries_reachable_returns": rep.Covers,
 		"integer_semantics":            "Go integers are fixed-width bit-vectors with wrap-around (no mathematical-integer abstraction); float64 is SMT Float64 RNE",
 		"notes":                        rep.Notes,
